@@ -476,10 +476,9 @@ func numericAffinity(v interface{}, real bool) interface{} {
 			}
 			return n
 		}
-		f, err := strconv.ParseFloat(s, 64)
-		if err != nil {
-			return v
-		}
+		// (it looks numeric: the only possible error is the range, and
+		// then the value is +-Inf, as in SQLite)
+		f, _ := strconv.ParseFloat(s, 64)
 		if !real && f >= -9223372036854775808.0 && f < 9223372036854775808.0 && float64(int64(f)) == f {
 			return int64(f)
 		}
